@@ -55,6 +55,20 @@ def run_cfg(chk, facts, cfg):
             'shift': {M: T.op('add', M, A)},
         }
 
+    # exact scaling by a power of two presupposes that no intermediate leaves the float range before the result does:
+    # the bound's intermediates must stay within the growth orders (data scale, sample size) of today's form
+    # mean -/+ c*sqrt((S2 - mean*S1)/(n-1))/sqrt(n), S1 = n m, S2 = (n-1) v + n m^2.  Squaring the *sum* (S1*S1: data^2, n^2)
+    # overflows n times earlier than S2 and, with the zero clamp of the variance, collapses the interval (seed C16-k).
+    from ..degree import growth_points, undominated
+    from ..meanci import crit, NORMAL, F1 as _F1
+    _M, _V, _N = T.sym('m'), T.sym('v'), T.sym('n')
+    _fn = T.op('i2f', _N)
+    _s1 = T.op('mul', _fn, _M)
+    _s2 = T.op('add', T.op('mul', T.op('sub', _fn, _F1), _V), T.op('mul', _fn, T.op('mul', _M, _M)))
+    _mean = T.op('div', _s1, _fn)
+    _var = T.op('div', T.op('sub', _s2, T.op('mul', _mean, _s1)), T.op('sub', _fn, _F1))
+    REF_PTS = growth_points(T.op('add', _mean, T.op('mul', crit(NORMAL, L), T.op('div', T.op('sqrt', _var), T.op('sqrt', _fn)))))
+
     for which in ('arithmetic', 'paired', 'unpaired'):
         try:
             res = {kind: pr.mean_like(which, kind, L) for kind, _ in KINDS}
@@ -75,6 +89,10 @@ def run_cfg(chk, facts, cfg):
                         g = nf.term_equal(T.subst(b, sb['scale']), T.op('mul', Tt, b))
                         chk.ob(key0 + ':scale' + sfx, 'E7-substitution', '%s %s bound is homogeneous of degree 1 in the data (scales by t > 0; exactly for powers of two)' % (which, name),
                                g, '' if g else 'b(t x) != t b(x) for b = %s' % T.show(b)[:160], which, sample={'producer': which, 'kind': kname, 'identity': 'b(t*x) = t*b(x)'})
+                        if which != 'unpaired':
+                            extra = undominated(growth_points(b), REF_PTS)
+                            chk.ob(key0 + ':scale-range' + sfx, 'E9 growth orders', '%s %s bound: no intermediate grows faster in (data scale, sample size) than those of mean -/+ c*sqrt((S2 - mean*S1)/(n-1))/sqrt(n), so scaling the data by 2^k scales the bound exactly wherever that form stays in range' % (which, name),
+                                   not extra, '' if not extra else 'intermediates of growth (data^a, n^b) with (a, b) in %s overflow / underflow before the scaled result does' % [tuple(str(x) for x in w) for w in extra[:3]], which)
                         # D3 shift
                         want = b if which == 'unpaired' else T.op('add', b, A)
                         g = nf.term_equal(T.subst(b, sb['shift']), want)
